@@ -74,8 +74,26 @@ TermKeys(t) == {t[j].key : j \in DOMAIN t}
 PoolAdmits(cfg, q, L) == \A i \in DOMAIN q.reqs : Admits(cfg, q.reqs[i], L)
 \* constraints of the pod in force: node selector, the j-th required term (j = 0: no term) and the expressions px of the preferred
 \* term Karpenter currently treats as required (<<>> = none)
-PodHoldsJ(cfg, e, j, px, L) == SelHolds(e.sel, L) /\ (j = 0 \/ TermHolds(cfg, e.terms[j], L)) /\ TermHolds(cfg, px, L)
-PodKeysJ(e, j, px) == DOMAIN e.sel \cup (IF j = 0 THEN {} ELSE TermKeys(e.terms[j])) \cup TermKeys(px)
+\* ... and its volumes: every volume must be usable on the node (bound PV: some node-affinity term; unbound: some allowed topology of the
+\* StorageClass) - Karpenter tries the combinations ("volume topology alternatives") one after the other, SOME one must do
+\* A NodeClaim commits to ONE combination (`ch`: constrained volume -> index of the chosen term / topology), so the set of instance
+\* types - and with it a minValues floor - is judged per combination.
+VolTermCount(cfg, e, v) ==
+    LET c == PvcOf(cfg, e, v) IN
+    IF c.pv # "" THEN Len(PvOf(cfg, c.pv).terms)
+    ELSE IF c.sc # "" /\ (\E x \in Range(cfg.scs) : x.name = c.sc) THEN Len(ScOf(cfg, c.sc).topologies) ELSE 0
+ConstrainedVols(cfg, e) == {v \in Range(e.vols) : HasPvc(cfg, e, v) /\ VolTermCount(cfg, e, v) > 0}
+VolChoices(cfg, e) ==
+    LET CV == ConstrainedVols(cfg, e)
+        mx == IF CV = {} THEN 0 ELSE MaxOf({VolTermCount(cfg, e, v) : v \in CV})
+    IN {ch \in [CV -> 1..mx] : \A v \in CV : ch[v] <= VolTermCount(cfg, e, v)}
+VolHoldsCh(cfg, e, v, i, L) ==
+    LET c == PvcOf(cfg, e, v) IN
+    IF c.pv # "" THEN TermHolds(cfg, PvOf(cfg, c.pv).terms[i], L) ELSE TopoTermHolds(ScOf(cfg, c.sc).topologies[i], L)
+PodHoldsJ(cfg, e, j, px, ch, L) ==
+    /\ SelHolds(e.sel, L) /\ (j = 0 \/ TermHolds(cfg, e.terms[j], L)) /\ TermHolds(cfg, px, L)
+    /\ \A v \in DOMAIN ch : VolHoldsCh(cfg, e, v, ch[v], L)
+PodKeysJ(cfg, e, j, px) == DOMAIN e.sel \cup (IF j = 0 THEN {} ELSE TermKeys(e.terms[j])) \cup TermKeys(px) \cup VolKeys(cfg, e)
 \* preference policy Respect: the HEAVIEST preferred node-affinity term is scheduled as if it were required until it is relaxed away
 Respect(cfg) == cfg.options.preference # "Ignore"
 Heaviest(pref) == CHOOSE i \in DOMAIN pref : \A j \in DOMAIN pref : pref[j].weight <= pref[i].weight
@@ -86,17 +104,17 @@ AllDaemonKeys(cfg) == UNION {DaemonKeys(d) : d \in Range(cfg.ds)}
 \* schedules); `soft` = TRUE evaluates the taint the Kubernetes way (a preference never blocks)
 Blocking(t, soft) == t.effect \in {"NoSchedule", "NoExecute"} \/ (~soft /\ t.effect = "PreferNoSchedule")
 TaintsOK(tols, taints, soft) == \A t \in Range(taints) : Blocking(t, soft) => \E x \in Range(tols) : Tolerates(x, t)
-HostsOn(cfg, e, j, px, q, it, o) ==
+HostsOn(cfg, e, j, px, ch, q, it, o) ==
     /\ o.available /\ o.ct # "reserved"                     \* reserved capacity is not counted (lower bound, see C17)
-    /\ LET K == PodKeysJ(e, j, px) \cup PoolKeys(q) \cup AllDaemonKeys(cfg)
+    /\ LET K == PodKeysJ(cfg, e, j, px) \cup PoolKeys(q) \cup AllDaemonKeys(cfg)
            D == [k \in K |-> LaunchDom(cfg, q, it, o, k)]
        IN \E L \in LabellingsOf(D, K) :
-            /\ PoolAdmits(cfg, q, L) /\ PodHoldsJ(cfg, e, j, px, L)
+            /\ PoolAdmits(cfg, q, L) /\ PodHoldsJ(cfg, e, j, px, ch, L)
             /\ LET dm == {d \in Range(cfg.ds) : DaemonRuns(cfg, d, L, q.taints)} IN
                /\ LeqRes(AddRes(SumReq({e}), SumReq(dm)), OfferingAlloc(it, o))
                /\ \A d \in dm : ~PortsClash(e.ports, d.ports)
-FeasibleTypes(cfg, e, j, px, q, left) ==
-    {it \in PoolTypes(cfg, q) : WithinLimits(q, it, left) /\ \E i \in DOMAIN it.offerings : HostsOn(cfg, e, j, px, q, it, it.offerings[i])}
+FeasibleTypes(cfg, e, j, px, ch, q, left) ==
+    {it \in PoolTypes(cfg, q) : WithinLimits(q, it, left) /\ \E i \in DOMAIN it.offerings : HostsOn(cfg, e, j, px, ch, q, it, it.offerings[i])}
 \* the distinct values instance type `it` contributes to a minValues floor on key k
 TypeValues(it, k) ==
     CASE k = "it"   -> {it.name}
@@ -107,7 +125,7 @@ MinValuesMet(q, T) == \A i \in DOMAIN q.reqs : q.reqs[i].min > 0 => Cardinality(
 FeasibleJ(cfg, e, j, px, q, left, soft) ==
     /\ PoolUsable(q)
     /\ TaintsOK(e.tol, q.taints, soft)
-    /\ LET T == FeasibleTypes(cfg, e, j, px, q, left) IN T # {} /\ (Strict(cfg) => MinValuesMet(q, T))
+    /\ \E ch \in VolChoices(cfg, e) : LET T == FeasibleTypes(cfg, e, j, px, ch, q, left) IN T # {} /\ (Strict(cfg) => MinValuesMet(q, T))
 TermInForce(e) == IF e.terms = <<>> THEN 0 ELSE 1
 FeasibleFresh(cfg, e, q, left) == FeasibleJ(cfg, e, TermInForce(e), PrefInForce(cfg, e), q, left, FALSE)
 \* the Kubernetes reading of the pod: ANY required term may hold, preferences and PreferNoSchedule never block
@@ -132,8 +150,13 @@ ExactScenario(cfg) ==
     /\ \A t \in Range(cfg.types) : \A i \in DOMAIN t.offerings : t.offerings[i].cpuOv = 0 /\ t.offerings[i].memOv = 0
                                                                     /\ t.offerings[i].podsOv = 0 /\ t.offerings[i].ohCpu = 0 /\ t.offerings[i].ohMem = 0
     /\ \A d \in Range(cfg.ds) : Len(d.terms) <= 1 /\ DaemonKeys(d) \subseteq {"arch", "os", "it", "gen"}
-ExactPod(e) ==
-    /\ NoInterPod(e) /\ e.vols = <<>>
+ExactPod(cfg, e) ==
+    /\ NoInterPod(e)
+    \* volumes: known claims; bound ones to known volumes, unbound ones with a known StorageClass; topology on the zone only
+    /\ \A v \in Range(e.vols) : /\ HasPvc(cfg, e, v)
+                                 /\ LET c == PvcOf(cfg, e, v) IN IF c.pv # "" THEN \E x \in Range(cfg.pvs) : x.name = c.pv
+                                                                ELSE \E x \in Range(cfg.scs) : x.name = c.sc
+    /\ VolKeys(cfg, e) \subseteq {"zone"}
     \* every key is constrained once (contradictory constraints on one key are the C12 / C01 findings, not C19's business)
     /\ \A j \in DOMAIN e.terms : DOMAIN e.sel \cap TermKeys(e.terms[j]) = {} /\ Cardinality(TermKeys(e.terms[j])) = Len(e.terms[j])
     /\ \A i \in DOMAIN e.pref : /\ Cardinality(TermKeys(e.pref[i].exprs)) = Len(e.pref[i].exprs)
